@@ -103,6 +103,8 @@ void c10_case(Tape& t, Ctx& ctx) {
       gen_durations(t, c.N, wellscaled_ratio(S), c.T, &c.sigma, &c.ratio, &c.dur_shape, &c.shape);
       c.t0 = gen_start_time(t);
       gen_data(t, c);
+      if (have && t.chance(1, 8)) c = cur;        // update with inputs identical to the previous update (possibly through the other overload)
+      else if (have && t.chance(1, 8)) { c = cur; c.t0 = gen_start_time(t); }  // identical except the start time
       bool by_points = t.flag();
       std::vector<double> tp = c.time_points();
       if (!have) { obj.reset(t.flag() ? new Spline() : (by_points ? new Spline(tp, c.P, c.bc) : new Spline(c.T, c.P, c.t0, c.bc))); }
